@@ -161,3 +161,20 @@ CHECKS["C13"] = {
     "note": TRUST + " d=2 quick, 3 thorough. Close timeout 10 s, receive timeout 7 s, heartbeat 6 s of virtual time (1 s grace); the clock never advances while callbacks "
             "are queued; the close-code clause is only judged when the decisive peer event met a settled session and no timer option or cancellation took part.",
 }
+
+CHECKS["C04"] = {
+    "engine": "SEQ",
+    "design_ref": "§3 C04, §2.4, §2.5",
+    "technique": "exhaustive code-point / 2-gram injection through every outbound text slot + explicit-state BFS over StreamWriter op sequences + payload size enumeration",
+    "text": "inject: every code point of the tier's set (all of U+0000-U+017F plus line separators, surrogates, look-alikes of CR/LF, plane boundaries; thorough: the "
+            "whole BMP below U+3000, the surrogate and U+FE00-U+FFFF ranges and a stride over the astral planes) and every 2-gram over {CR, LF, NUL, HT, SP, VT, DEL, "
+            "NEL, U+2028, ':', 'a'} is placed at the start, middle and end of each of 32 outbound slots (client method, target, query, header name/value, cookie "
+            "name/value, User-Agent, Host, URL user; server reason, header name/value, content type, set_cookie name/value/domain/path/samesite, redirect location, "
+            "ETag; multipart part header name/value, Content-Disposition fields, FormData name/filename/content type) and sent through ClientSession, "
+            "web.Application or MultipartWriter down to transport.write; an independent splitter on CRLF, bare CR and bare LF must see the benign message's line "
+            "structure, or nothing of the supplied text may be written.  writer: BFS over all sequences up to depth 4 (6) of 9 StreamWriter ops x 6 framing modes; "
+            "the bytes after the head must chunk-decode / inflate to exactly what was written, one terminator, nothing after it.  sizes: 10 payload classes x 8 "
+            "sizes x read offsets, 0-3 part multiparts incl. non-ASCII part headers, FormData variants: size == bytes written, Content-Length on the wire == body.",
+    "note": TRUST + " A server-side refusal is a clean 500 that carries none of the supplied text; the Date field is masked; set_eof() is excluded from the compressed "
+            "writer modes and nothing is written after an end-of-message op (documented contract).",
+}
